@@ -11,15 +11,11 @@
     [load] does not depend on the arithmetic [NM]; the statements about [run]
     are for every [NM].
 
-    READ THIS: a string entry of the configuration file enters the precedence
-    chain as [file_string entry] (Proofs/SettingsPickString.v).  The INTENDED
-    meaning is "the entry, when it is not the empty string".  In the CURRENT
-    model [pick_string] has a transliteration slip and [file_string] DROPS THE
-    FIRST BYTE of the entry ([file_string (Some (c :: r)) = Some r]); the
-    intended statement is refuted for the current model in
-    Proofs/SettingsModelDefect.v ([settings_precedence_strings_refuted]).  When
-    Model/Cli.v is repaired, one line of SettingsPickString.v changes and this
-    file stands as it is, with the intended meaning. *)
+    A string entry of the configuration file enters the precedence chain as
+    [file_string entry] (Proofs/SettingsPickString.v): the entry, when it is not
+    the empty string.  (History: proving this file exposed a slip in an earlier
+    Model/Cli.v, whose [pick_string] dropped the first byte of the entry; the
+    model was repaired and the correspondence check of C16 covers the case.) *)
 From HP Require Import Base.Bytes Base.Utf8 Base.Num Model.Scanner Model.Parser Model.Elements Model.Resolver
   Model.Dates Model.Tree Model.Writer Model.Reporters Model.Cli.
 From HP Require Import Proofs.SettingsPickString Proofs.Settings Proofs.SettingsNoDb.
